@@ -1,4 +1,4 @@
 From Coq Require Import Extraction ExtrOcamlBasic.
-From PV Require Import Lib.ExtractBase Model.Provider.
+From PV Require Import Lib.ExtractBase Model.Provider Model.ProviderFile.
 Extraction Language OCaml.
-Extraction "extracted/C08_model.ml" xb_types run bound cyc_prefix ids spec_b constructor_refuses.
+Extraction "extracted/C08_model.ml" xb_types run bound cyc_prefix ids spec_b constructor_refuses run_file f_clean.
